@@ -87,21 +87,22 @@ def main():
     import signal as _signal
     limit = int(os.environ.get('PYVC_WALL_LIMIT_S', '780' if tier == 'quick' else '5400'))
 
+    phase = {'name': 'generation'}
+
     def _on_alarm(signum, frame):
-        raise Unsupported(f'wall-clock limit of {limit} s for the {tier} tier reached (obligation generation or '
-                          f'discharge did not finish)')
+        if phase['name'] == 'generation':
+            _signal.alarm(20)   # keep interrupting: the parts of a check that still follow are cut short as well
+        raise Unsupported(f'wall-clock limit of {limit} s for the {tier} tier reached during {phase["name"]} (obligation '
+                          f'generation or discharge did not finish)')
     _signal.signal(_signal.SIGALRM, _on_alarm)
     _signal.alarm(limit)
+    t_run = None
     try:
         bad = scan_forbidden(src_root)
         if bad:
             raise Unsupported('dynamic feature outside the assumed Python semantics: ' + '; '.join(bad[:5]))
         mod.run(ctx)
-        t_run = time.time() - t0
-        ctx.discharge_all()
-        ctx.notes.append(f'phases: generation {t_run:.1f}s, discharge {time.time() - t0 - t_run:.1f}s')
     except FrameViolation as e:
-        _signal.alarm(0)
         status, message = 'undecided', f'frame: {e} (outside a contract that could attribute it)'
     except Unsupported as e:
         status, message = 'undecided', f'unsupported construct / drift: {e}'
@@ -110,6 +111,21 @@ def main():
     except Exception as e:   # checker crash: never a verdict about the code
         status, message = 'crash', f'{type(e).__name__}: {e}'
         traceback.print_exc()
+    # the obligations generated so far are discharged in any case: an undecided run can still exhibit a violation
+    _signal.alarm(0)
+    phase['name'] = 'discharge'
+    if status != 'crash':
+        t_run = time.time() - t0
+        _signal.alarm(max(180, limit - int(t_run)) if status == 'ok' else 240)
+        try:
+            ctx.discharge_all()
+            ctx.notes.append(f'phases: generation {t_run:.1f}s, discharge {time.time() - t0 - t_run:.1f}s')
+        except Unsupported as e:
+            if status == 'ok':
+                status, message = 'undecided', f'unsupported construct / drift: {e}'
+        except Exception as e:   # noqa
+            status, message = 'crash', f'{type(e).__name__}: {e}'
+            traceback.print_exc()
     _signal.alarm(0)
     wall = time.time() - t0
 
